@@ -207,6 +207,15 @@ fn move_offset_checked(xs: &mut Xstate, pos: usize) -> Xresult {
     }
 }
 
+// Advance the cursor past a successful read and push its result. Nothing may
+// fail once the offset has moved, so the only fallible step of push_data (the
+// stack limit) is tested first.
+fn commit_read(xs: &mut Xstate, end: usize, val: Cell) -> Xresult {
+    xs.check_stack_limit()?;
+    move_offset_checked(xs, end)?;
+    xs.push_data(val)
+}
+
 fn bitstr_len(xs: &mut Xstate) -> Xresult {
     let n = xs.pop_data()?.bitstr()?.len();
     xs.push_data(Cell::from(n))
@@ -511,15 +520,14 @@ fn word_magic(xs: &mut Xstate) -> Xresult {
             fail_pos: pos,
         });
     }
-    move_offset_checked(xs, s.end())?;
-    xs.push_data(Cell::from(s))
+    let end = s.end();
+    commit_read(xs, end, Cell::from(s))
 }
 
 fn read_bits(xs: &mut Xstate, n: usize) -> Xresult {
     let s = peek_bits(xs, n)?;
-    move_offset_checked(xs, s.end())?;
-    let val = Cell::from(s);
-    xs.push_data(val)
+    let end = s.end();
+    commit_read(xs, end, Cell::from(s))
 }
 
 fn word_bitstr(xs: &mut Xstate) -> Xresult {
@@ -559,8 +567,8 @@ fn read_unsigned(xs: &mut Xstate, n: usize, bo: Byteorder) -> Xresult {
         return Err(Xerr::IntegerOverflow);
     }
     let x = s.to_uint(bo) as Xint;
-    move_offset_checked(xs, s.end())?;
-    xs.push_data(Cell::from(x).with_tags(bitstr_num_tags(s, bo)))
+    let end = s.end();
+    commit_read(xs, end, Cell::from(x).with_tags(bitstr_num_tags(s, bo)))
 }
 
 fn read_signed(xs: &mut Xstate, n: usize, bo: Byteorder) -> Xresult {
@@ -569,8 +577,8 @@ fn read_signed(xs: &mut Xstate, n: usize, bo: Byteorder) -> Xresult {
         return Err(Xerr::IntegerOverflow);
     }
     let x = s.to_int(bo);
-    move_offset_checked(xs, s.end())?;
-    xs.push_data(Cell::from(x).with_tags(bitstr_num_tags(s, bo)))
+    let end = s.end();
+    commit_read(xs, end, Cell::from(x).with_tags(bitstr_num_tags(s, bo)))
 }
 
 fn read_signed_n(xs: &mut Xstate, n: usize) -> Xresult {
@@ -595,8 +603,8 @@ fn read_float(xs: &mut Xstate, n: usize, bo: Byteorder) -> Xresult {
         64 => s.to_f64(bo) as Xreal,
         n => return Err(float_len_err(n)),
     };
-    move_offset_checked(xs, s.end())?;
-    xs.push_data(Cell::from(val).with_tags(bitstr_num_tags(s, bo)))
+    let end = s.end();
+    commit_read(xs, end, Cell::from(val).with_tags(bitstr_num_tags(s, bo)))
 }
 
 fn bitstr_num_tags(bs: Bitstr, bo: Byteorder) -> Xmap {
@@ -608,7 +616,8 @@ fn bitstr_num_tags(bs: Bitstr, bo: Byteorder) -> Xmap {
     m
 }
 
-fn nulbytestr_read(xs: &mut Xstate) -> Xresult1<Bitstr> {
+// peek the NUL-terminated byte string at the cursor: (bytes incl. NUL, end offset)
+fn nulbytestr_peek(xs: &mut Xstate) -> Xresult1<(Bitstr, usize)> {
     let mut s = rest_bits(xs)?;
     if !s.is_bytestr() {
         return Err(Xerr::ToBytestrError(s));
@@ -622,17 +631,16 @@ fn nulbytestr_read(xs: &mut Xstate) -> Xresult1<Bitstr> {
         }
     }
     let ss = s.read(len).unwrap();
-    move_offset_checked(xs, start + len)?;
-    Ok(ss)
+    Ok((ss, start + len))
 }
 
 fn nulbytestr_word(xs: &mut Xstate) -> Xresult {
-    let bs = nulbytestr_read(xs)?;
-    xs.push_data(Cell::from(bs))
+    let (bs, end) = nulbytestr_peek(xs)?;
+    commit_read(xs, end, Cell::from(bs))
 }
 
 fn cstr_word(xs: &mut Xstate) -> Xresult {
-    let bs = nulbytestr_read(xs)?;
+    let (bs, end) = nulbytestr_peek(xs)?;
     let mut s = String::with_capacity(bs.len() / 8 + 1);
     for (x, _) in bs.iter8() {
         if x == 0 {
@@ -641,7 +649,7 @@ fn cstr_word(xs: &mut Xstate) -> Xresult {
         let c = char::from_u32(x as u32).unwrap();
         s.push(c)
     }
-    xs.push_data(Cell::from(s))
+    commit_read(xs, end, Cell::from(s))
 }
 
 fn word_write(xs: &mut Xstate) -> Xresult {
